@@ -37,6 +37,7 @@ import (
 	"os"
 	"regexp"
 	"runtime"
+	"strconv"
 	"strings"
 
 	"verifharness/core"
@@ -55,8 +56,7 @@ const c11LiteralCap = 30 * 1024 * 1024
 func c11KnobsOf(sc *core.Scenario) c11Knobs {
 	return c11Knobs{
 		lit0: sc.C("lit0") == 1, openquote: sc.C("openquote") == 1, barelf: sc.C("barelf") == 1,
-		deep: sc.C("deep") == 1, starttls: sc.C("starttls") == 1, done: sc.C("done") == 1, listutf8: sc.C("listutf8") == 1,
-		seqzero: sc.C("seqzero") == 1, partwrap: sc.C("partwrap") == 1,
+		deep: sc.C("deep") == 1, starttls: sc.C("starttls") == 1, listutf8: sc.C("listutf8") == 1, stackdeep: sc.C("stackdeep") == 1,
 		user: "user0", pass: "pass0",
 	}
 }
@@ -73,7 +73,7 @@ func (C11) Generate(r *core.Rand, tier string, idx int) *core.Scenario {
 	}
 	sc.Cfg["nopar"] = r.Intn(2)
 	// input classes that hit recorded defects: each in a small share of the runs
-	for _, k := range []string{"lit0", "openquote", "barelf", "emptytag", "starttls", "done", "firstbad", "listutf8", "seqzero", "partwrap"} {
+	for _, k := range []string{"lit0", "openquote", "barelf", "emptytag", "starttls", "firstbad", "listutf8"} {
 		if r.P(1, 24) {
 			sc.Cfg[k] = 1
 		}
@@ -81,12 +81,23 @@ func (C11) Generate(r *core.Rand, tier string, idx int) *core.Scenario {
 	if r.P(1, 40) {
 		sc.Cfg["deep"] = 1
 	}
+	big := r.P(1, 50) // a run that sends tens of MiB: what is kept per byte received shows
+	if big {
+		sc.Cfg["big"] = 1
+	}
 	// the disconnect inside a quoted string makes the server spin: the run ends with
 	// the watchdog killing the worker, so it is confined to a known, thin set of runs
 	fatal := idx%251 == 250 && os.Getenv("VERIF_C11_NOFATAL") == ""
 	if fatal {
 		sc.Cfg["eofquote"] = 1
 		sc.Cfg["wd"] = 8
+	}
+	// nesting deep enough to overflow the goroutine stack ends the process (no record
+	// can be written afterwards): confined to another thin set of runs; the scenario
+	// is written to the replay directory before the bytes are sent
+	crash := idx%251 == 125 && os.Getenv("VERIF_C11_NOFATAL") == ""
+	if crash {
+		sc.Cfg["stackdeep"] = 1
 	}
 	n := r.Range(8, 40)
 	fresh := true
@@ -120,6 +131,10 @@ func (C11) Generate(r *core.Rand, tier string, idx int) *core.Scenario {
 		}
 		a.A[3] = r.Intn(1 << 20)
 		a.A[4] = r.Intn(1 << 24)
+		if big && r.P(1, 3) {
+			a.A[2] = 9                      // very long line
+			a.A[4] = 98 + 100*r.Intn(1<<16) // of the largest size class
+		}
 		if r.P(1, 12) || (fatal && i == n-1) {
 			a.A[5] = 1 + r.Intn(7)
 			if fatal && i == n-1 {
@@ -132,8 +147,21 @@ func (C11) Generate(r *core.Rand, tier string, idx int) *core.Scenario {
 		}
 		sc.Actions = append(sc.Actions, a)
 	}
+	if crash {
+		// "tag SEARCH OR (OR (OR ( ..." about 10^6 levels deep
+		sc.Actions = append(sc.Actions, core.Action{K: "g", A: []int{0, 0, 4, c11NestSeed3, 99 + 100*899000, 0, 0, 0}})
+	}
 	return sc
 }
+
+// c11NestSeed3 is a mutation seed for which the nesting mutation picks form 11 ("OR (" repeated, never closed).
+var c11NestSeed3 = func() int {
+	for s := 0; ; s++ {
+		if core.NewRand(core.Mix(uint64(s), 0xC11B)).Intn(12) == 11 {
+			return s
+		}
+	}
+}()
 
 // c11QuotedLoginSeed is a base seed for which LOGIN's user name is sent quoted.
 var c11QuotedLoginSeed = func() int {
@@ -221,6 +249,11 @@ func (x *c11X) run() {
 		switch a.K {
 		case "g":
 			x.garbage(a, i+1)
+		case "raw":
+			// hand-written reproducers (regress files): X holds the bytes with Go
+			// escapes, sent as they are; A[0] = 1: then EOF, 2: then reset.  Never
+			// generated.
+			x.raw(a)
 		case "by":
 			x.bystanders()
 			_, t0 = c11Mem(false)
@@ -312,18 +345,29 @@ func c11Mem(gc bool) (heap, total uint64) {
 	return m.HeapAlloc, m.TotalAlloc
 }
 
+// failMeasured records a violation whose detail holds measured quantities: they stay
+// out of the trace hash (the same run measures slightly different numbers each time).
+func (x *c11X) failMeasured(oracle, sig, format string, args ...any) {
+	e := x.e
+	if e.V != nil {
+		return
+	}
+	e.V = &core.Violation{Property: e.Prop, Oracle: oracle, Detail: fmt.Sprintf(format, args...), Sig: oracle + ": " + sig, Step: e.Step}
+	e.Tr.Event("VIOLATION", oracle, sig)
+}
+
 func (x *c11X) memCheck(where string) {
 	x.quiesce("memcheck")
 	heap, _ := c11Mem(true)
 	x.e.St.Checks++
 	const slack = 64 << 20
 	if heap > x.heap0+8*uint64(x.sent)+slack {
-		x.e.FailSig("memory", "heap after GC out of proportion", "%s: HeapAlloc after GC %d MiB, baseline %d MiB, %d bytes sent (bound: baseline + 8 x sent + 64 MiB)",
+		x.failMeasured("memory", "heap after GC out of proportion", "%s: HeapAlloc after GC %d MiB, baseline %d MiB, %d bytes sent (bound: baseline + 8 x sent + 64 MiB)",
 			where, heap>>20, x.heap0>>20, x.sent)
 		return
 	}
 	if bound := 64*uint64(x.sent) + 256*uint64(x.recvd) + slack + uint64(x.lits)*(32<<20); x.allocG > bound {
-		x.e.FailSig("alloc-total", "allocation out of proportion", "%s: %d MiB allocated while serving the garbage connections for %d bytes sent, %d bytes answered and %d accepted literals (bound: 64 x sent + 256 x answered + 64 MiB + 32 MiB per accepted literal)",
+		x.failMeasured("alloc-total", "allocation out of proportion", "%s: %d MiB allocated while serving the garbage connections for %d bytes sent, %d bytes answered and %d accepted literals (bound: 64 x sent + 256 x answered + 64 MiB + 32 MiB per accepted literal)",
 			where, x.allocG>>20, x.sent, x.recvd, x.lits)
 	}
 }
@@ -485,9 +529,10 @@ type c11G struct {
 	n    int
 	rng  *core.Rand
 
-	rbuf []byte
-	q    []c11Item
-	bye  bool
+	rbuf       []byte
+	q          []c11Item
+	bye        bool
+	byeInvalid bool
 
 	// what the server has been sent and not been matched yet (burst mode)
 	pend []byte
@@ -571,6 +616,10 @@ func (x *c11X) garbage(a core.Action, step int) {
 	}
 	g := x.g
 	b := c11Build(a, step, x.kn)
+	if x.kn.stackdeep && len(b) > c11SafeDepth {
+		x.wd.PreWrite("crash-stack-overflow", "the process ended while the server parsed a deeply nested command (Go runtime: goroutine stack exceeds the 1 GB limit); this file was written before the bytes were sent")
+		defer x.wd.PreWriteDone()
+	}
 	cut := abs(a.Arg(5)) % 8
 	if cut != 0 {
 		if cut == 4 && !x.kn.openquote && x.sc.C("eofquote") != 1 {
@@ -605,6 +654,82 @@ func (x *c11X) garbage(a core.Action, step int) {
 				x.e.St.Probes["cut_at_line_start"]++
 			}
 			g.disconnect(a.Arg(7)%2, "cut")
+		}
+	}
+}
+
+// c11Unescape reads \r \n \t \\ \" and \xNN; every other byte stands for itself.
+func c11Unescape(s string) ([]byte, error) {
+	var out []byte
+	for i := 0; i < len(s); i++ {
+		c := s[i]
+		if c != '\\' {
+			out = append(out, c)
+			continue
+		}
+		i++
+		if i >= len(s) {
+			return nil, fmt.Errorf("dangling backslash")
+		}
+		switch s[i] {
+		case 'r':
+			out = append(out, '\r')
+		case 'n':
+			out = append(out, '\n')
+		case 't':
+			out = append(out, '\t')
+		case '\\', '"':
+			out = append(out, s[i])
+		case 'x':
+			if i+2 >= len(s) {
+				return nil, fmt.Errorf("short \\x escape")
+			}
+			v, err := strconv.ParseUint(s[i+1:i+3], 16, 8)
+			if err != nil {
+				return nil, err
+			}
+			out = append(out, byte(v))
+			i += 2
+		default:
+			return nil, fmt.Errorf("unknown escape \\%c", s[i])
+		}
+	}
+	return out, nil
+}
+
+func (x *c11X) raw(a core.Action) {
+	b, err := c11Unescape(a.X)
+	if err != nil {
+		x.e.Infra = fmt.Errorf("raw action: %v", err)
+		return
+	}
+	if x.g == nil || x.g.dead {
+		if x.g = x.open(); x.g == nil {
+			return
+		}
+	}
+	g := x.g
+	if !g.any && len(b) > 0 && !c11GluonTagChar(b[0]) {
+		g.firstBad = true
+	}
+	g.any = true
+	for _, c := range []byte(b) { // keep the trackers of the sanitiser in step
+		switch {
+		case c == '\n':
+			g.sInq, g.sEsc = false, false
+		case g.sInq && g.sEsc:
+			g.sEsc = false
+		case g.sInq && c == '\\':
+			g.sEsc = true
+		case c == '"':
+			g.sInq = !g.sInq
+		}
+	}
+	g.deliver([]byte(b))
+	if how := a.Arg(0); how != 0 && !g.dead && !x.e.Failed() {
+		g.flushBurst()
+		if !g.dead && !x.e.Failed() {
+			g.disconnect((how-1)%2, "raw")
 		}
 	}
 }
@@ -752,6 +877,12 @@ func (g *c11G) deliver(b []byte) {
 		// announcement, IDLE): there the burst is flushed and matched, so that inside
 		// a burst at most the last line can be answered by "+".
 		for len(b) > 0 && !g.dead && !g.x.e.Failed() {
+			if len(g.pend) == 0 { // nothing unmatched: the matcher's state is exact
+				g.bLit = 0
+				if g.state == c11Lit {
+					g.bLit = g.litN
+				}
+			}
 			if g.bLit > 0 {
 				n := min(g.bLit, int64(len(b)))
 				g.send(b[:n])
@@ -977,6 +1108,11 @@ func (g *c11G) pull() {
 			dataLen += len(f)
 			if it.status == "BYE" {
 				g.bye = true
+				if t := strings.ToLower(string(f)); strings.Contains(t, "mailbox was deleted") || strings.Contains(t, "state is inconsistent") {
+					// the session's selected mailbox was deleted (here: by itself): gluon
+					// ends such a session with BYE; not an answer to garbage
+					g.byeInvalid = true
+				}
 			}
 			continue
 		case 2:
@@ -989,6 +1125,7 @@ func (g *c11G) pull() {
 	if conts+datas > 0 {
 		g.x.e.Tr.Event("recv+", conts, datas, dataLen)
 	}
+	g.x.e.CheckPanics() // a handler that panicked never answers: report the panic, not its consequences
 }
 
 func c11LitSuffix(b []byte) (int, bool) {
@@ -1388,6 +1525,8 @@ func (g *c11G) closedByServer() {
 		why = "client_eof"
 	case g.lastLogout:
 		why = "logout"
+	case g.byeInvalid:
+		why = "bye_selected_mailbox_deleted"
 	case g.consecBad >= 20:
 		why = "20_errors"
 	case g.tlsLine:
